@@ -333,8 +333,10 @@ def variable_case(R: Run, Rm, ch, axis, full=True):
             cum.append(cum[-1] + c)
         for y in ys:
             if 0 <= y < N:
-                i = ax.pick(t.locate(ax.ix(y)))
-                R.oracle(cum[i] <= y < cum[i + 1], "vtiles-locate-not-inverse", dict(case, y=y), f"locate={i}")
+                got = guarded(lambda: str(int(ax.pick(t.locate(ax.ix(y))))))
+                want = max(i for i in range(T) if cum[i] <= y < cum[i + 1])
+                R.oracle(got == str(want), "vtiles-locate-not-inverse", dict(case, y=y), f"locate={got} want {want}")
+        R.oracle(guarded(lambda: str(int(ax.pick(t.base.yx)))) == str(N), "vtiles-base-ne-sum", case, "base != sum(chunks)")
         regs = list(zip(cum[:-1], cum[1:]))
     if not full or any(r[0] is None for r in regs):
         return
